@@ -244,4 +244,89 @@ theorem setVecString_repr {a b : ArrState} {la lb : List String} (ra : Repr a la
   rw [← this]
   exact r1
 
+
+/-! ## `==` / `!=` through the intern tables -/
+
+theorem eqArrays_fold {a b : ArrState} {la lb : List String} (ra : Repr a la) (rb : Repr b lb) :
+    ∀ (l : List Nat), (∀ i ∈ l, i < la.length ∧ i < lb.length) →
+      l.foldr (eqStep a b) (some []) = some (l.map (fun i => la[i]! == lb[i]!)) := by
+  intro l
+  induction l with
+  | nil => intro _; rfl
+  | cons i t ih =>
+    intro hin
+    obtain ⟨h1, h2⟩ := hin i (by simp)
+    simp only [List.foldr_cons, ih (fun j hj => hin j (by simp [hj])), eqStep, ra.elems i h1, rb.elems i h2, List.map_cons]
+    simp [getElem!_def, List.getElem?_eq_getElem h1, List.getElem?_eq_getElem h2]
+
+/-- **`a == b`** (element-wise, each side looked up in its OWN table) is the comparison of the represented lists -/
+theorem eqArrays_repr {a b : ArrState} {la lb : List String} (ra : Repr a la) (rb : Repr b lb)
+    (hlen : la.length = lb.length) : eqArrays a b = some (List.zipWith (· == ·) la lb) := by
+  unfold eqArrays
+  rw [eqArrays_fold ra rb (List.range a.idx.length) (fun i hi => by
+    have := List.mem_range.1 hi
+    rw [← ra.len] at this
+    exact ⟨this, by omega⟩)]
+  congr 1
+  apply List.ext_getElem
+  · simp [← ra.len, hlen]
+  · intro i h1 h2
+    simp at h1 h2
+    have hi1 : i < la.length := by rw [ra.len]; exact h1
+    have hi2 : i < lb.length := by omega
+    simp [getElem!_def, List.getElem?_eq_getElem hi1, List.getElem?_eq_getElem hi2]
+
+/-- **`a == s`** (`hasString` + index comparison) is `[x == s for x in list]` — the index comparison is sound and
+    complete because index ↔ string is a bijection -/
+theorem eqString_repr {a : ArrState} {la : List String} (ra : Repr a la) (s : String) :
+    eqString a s = la.map (· == s) := by
+  have hel : ∀ i (hi : i < la.length), ∃ k, a.idx[i]? = some k ∧ lookupIdx a.table k = some la[i] := by
+    intro i hi
+    have := ra.elems i hi
+    unfold getitemString at this
+    cases hk : a.idx[i]? with
+    | none => simp [hk] at this
+    | some k => exact ⟨k, rfl, by simpa [hk] using this⟩
+  unfold eqString
+  cases hl : lookupStr a.table s with
+  | some k =>
+    simp only
+    apply List.ext_getElem
+    · simp [ra.len]
+    · intro i h1 h2
+      simp at h1 h2
+      obtain ⟨k', hk', hlk⟩ := hel i h2
+      have hki : a.idx[i] = k' := by
+        have := List.getElem?_eq_getElem h1
+        rw [this] at hk'; exact Option.some.inj hk'
+      simp only [List.getElem_map, hki]
+      by_cases he : k' = k
+      · subst he
+        have := (lookup_bijection ra.inv k' s).2 hl
+        rw [hlk] at this
+        simp [Option.some.inj this]
+      · have hne : la[i] ≠ s := by
+          intro hs
+          rw [hs] at hlk
+          have := (lookup_bijection ra.inv k' s).1 hlk
+          rw [hl] at this
+          exact he (Option.some.inj this).symm
+        have e1 : (k' == k) = false := by simpa using he
+        have e2 : (la[i] == s) = false := by simpa using hne
+        rw [e1, e2]
+  | none =>
+    simp only
+    apply List.ext_getElem
+    · simp [ra.len]
+    · intro i h1 h2
+      simp at h1 h2
+      obtain ⟨k', _, hlk⟩ := hel i h2
+      have hne : la[i] ≠ s := by
+        intro hs
+        rw [hs] at hlk
+        have := (lookup_bijection ra.inv k' s).1 hlk
+        rw [hl] at this
+        cases this
+      simp [hne]
+
 end ImathVerif.StringTable
